@@ -303,6 +303,17 @@ func driver(a []string) int {
 			fmt.Printf("VIOLATION property=%s replay=%s\n", prop, path)
 		}
 	}
+	sigCount := map[string]int{}
+	for _, v := range viols {
+		for _, x := range v.Violations {
+			if _, ok := known[x.Sig]; !ok {
+				sigCount[x.Sig]++
+			}
+		}
+	}
+	for s, n := range sigCount {
+		fmt.Printf("  violation signature x%d: %s\n", n, s)
+	}
 	sigs := make([]string, 0, len(knownSeen))
 	for s := range knownSeen {
 		sigs = append(sigs, s)
